@@ -17,7 +17,9 @@ import (
 	"github.com/icon-project/goloop/common/db"
 	"github.com/icon-project/goloop/common/log"
 	"github.com/icon-project/goloop/consensus"
+	"github.com/icon-project/goloop/consensus/fastsync"
 	"github.com/icon-project/goloop/module"
+	"github.com/icon-project/goloop/network"
 	"github.com/icon-project/goloop/service/state"
 	gtest "github.com/icon-project/goloop/test"
 	"pgregory.net/rapid"
@@ -54,9 +56,14 @@ type c05Target struct {
 	psHash  byte
 	appData uint64
 	realID  []byte // import path: id of the real block (selector block==0), nil otherwise
+	// fast-sync path: part set id of the real block (selector psCount==0), nil otherwise
+	realPS *consensus.PartSetID
 }
 
 func (t c05Target) psid() *consensus.PartSetIDAndAppData {
+	if t.realPS != nil && t.psCount == 0 {
+		return t.realPS.WithAppData(t.appData)
+	}
 	p := &consensus.PartSetID{Count: t.psCount, Hash: crypto.SHA3Sum256([]byte{'p', t.psHash})}
 	return p.WithAppData(t.appData)
 }
@@ -170,7 +177,10 @@ func c05MakeBad(rt *rapid.T, class string, n int, tg c05Target, good []c05Desc, 
 	case "wrong-round":
 		alt.round++
 	case "wrong-partset":
-		if rapid.Bool().Draw(rt, "psWhich") {
+		if tg.realPS != nil && tg.psCount == 0 {
+			// the real part set is selected by psCount==0 alone: any other count leaves it
+			alt.psCount = 1 + uint16(rapid.IntRange(0, 2).Draw(rt, "psAlt"))
+		} else if rapid.Bool().Draw(rt, "psWhich") {
 			alt.psCount++
 		} else {
 			alt.psHash++
@@ -457,17 +467,21 @@ type c05ImportEnv struct {
 	body   block.V2BodyFormat
 }
 
+func c05Genesis(n int) string {
+	var vals []string
+	for i := 0; i < n; i++ {
+		vals = append(vals, fmt.Sprintf("%q", gen.WalletFromIndex(i).Address().String()))
+	}
+	return fmt.Sprintf(`{"accounts":[{"name":"treasury","address":"hx1000000000000000000000000000000000000000","balance":"0x0"},{"name":"god","address":"hx0000000000000000000000000000000000000000","balance":"0x0"}],"message":"","nid":"0x1","chain":{"validatorList":[%s]}}`, strings.Join(vals, ","))
+}
+
 func c05NewImportEnv(n int) (env *c05ImportEnv, problem string) {
 	defer func() {
 		if r := recover(); r != nil {
 			problem = fmt.Sprintf("panic while assembling the node: %v", r)
 		}
 	}()
-	var vals []string
-	for i := 0; i < n; i++ {
-		vals = append(vals, fmt.Sprintf("%q", gen.WalletFromIndex(i).Address().String()))
-	}
-	gs := fmt.Sprintf(`{"accounts":[{"name":"treasury","address":"hx1000000000000000000000000000000000000000","balance":"0x0"},{"name":"god","address":"hx0000000000000000000000000000000000000000","balance":"0x0"}],"message":"","nid":"0x1","chain":{"validatorList":[%s]}}`, strings.Join(vals, ","))
+	gs := c05Genesis(n)
 	tt := &c05T{}
 	// the node's logger (trace level) captures os.Stderr when it is created: give it /dev/null
 	c05NullOnce.Do(func() { c05Null, _ = os.OpenFile(os.DevNull, os.O_WRONLY, 0) })
@@ -586,6 +600,13 @@ func TestC05(t *testing.T) {
 	})
 	t.Run("validatorChange", func(t *testing.T) {
 		ev.Check(t, 60, 1500, func(rt *rapid.T) { c05ValidatorChange(rt, rec) })
+	})
+	t.Run("fastSync", func(t *testing.T) {
+		gl := log.GlobalLogger()
+		lv := gl.GetLevel()
+		gl.SetLevel(log.WarnLevel)
+		defer gl.SetLevel(lv)
+		ev.Check(t, 400, 6000, func(rt *rapid.T) { c05FastSync(rt, rec) })
 	})
 	t.Run("import", func(t *testing.T) {
 		// the package-global logger (db writer etc.) is at debug level: quieten it for this sub-check
@@ -883,5 +904,308 @@ func c05ValidatorChange(rt *rapid.T, rec *ev.Rec) {
 		if mode == "allNew" {
 			ev.Inconclusive("C05 validator change: the full certificate of the new set is rejected at import (%v): the harness misreads which set votes for block 4 | %s", ierr, desc)
 		}
+	}
+}
+
+// ---- the fast-sync path: consensus.processBlock ----
+//
+// A real consensus engine runs on a real node X (not a validator) at height 1. A second node with the same
+// genesis produced the real block 1. Before the block result arrives, X may already have received votes of
+// the validators over the network (drawn: none, nil precommits up to a quorum, precommits for another block
+// up to a quorum, precommits for exactly the target, the same in another round, prevotes for the target).
+// Then a fast-sync peer hands X block 1 with a drawn commit vote list (the same generator as "lists", its
+// target being the real block id / real part set id most of the time) through ReceiveBlockResult, exactly
+// like fastsync's client does.
+//
+// processBlock merges the list into the engine's vote set and asks that set for the decision, so precommits
+// the node received earlier count as well. Reference (an "only if", like everywhere in C05): if the result
+// is consumed at its height, then
+//   - the list's target is the real block: real id, real part set id (the engine derives it from the block),
+//   - S = {validators with a valid precommit in the list} + {validators whose precommit for exactly the
+//     list's (round, block id, part set id, app data) X received before} has 3*|S| > 2*n.
+// Everything the engine could count was made by the harness, so S is an upper bound of what it may count.
+// A rejected valid list is only labelled.
+
+type c05BlockResult struct {
+	blk      module.BlockData
+	votes    []byte
+	consumed bool
+	rejected bool
+}
+
+func (b *c05BlockResult) Block() module.BlockData { return b.blk }
+func (b *c05BlockResult) Votes() []byte           { return b.votes }
+func (b *c05BlockResult) Consume()                { b.consumed = true }
+func (b *c05BlockResult) Reject()                 { b.rejected = true }
+
+func c05FastSync(rt *rapid.T, rec *ev.Rec) {
+	n := rapid.SampledFrom([]int{1, 2, 3, 4, 4, 4, 5, 6, 7, 7, 10}).Draw(rt, "n")
+	need := n*2/3 + 1
+	prod, problem := c05NewImportEnv(n)
+	defer func() {
+		if prod != nil {
+			prod.close()
+		}
+	}()
+	if problem != "" {
+		ev.Inconclusive("C05 fast sync: cannot assemble the producer: %s", problem)
+	}
+	blk1 := prod.blk1
+	var bb bytes.Buffer
+	if blk1.MarshalHeader(&bb) != nil || blk1.MarshalBody(&bb) != nil {
+		ev.Inconclusive("C05 fast sync: cannot serialise block 1")
+	}
+	psb := consensus.NewPartSetBuffer(consensus.ConfigBlockPartSize)
+	_, _ = psb.Write(bb.Bytes())
+	realPS := psb.PartSet().ID()
+
+	// the syncing node
+	xt := &c05T{}
+	var x *gtest.Node
+	func() {
+		defer func() {
+			if r := recover(); r != nil {
+				problem = fmt.Sprintf("panic while assembling the syncing node: %v", r)
+			}
+		}()
+		if c05Null != nil {
+			saved := os.Stderr
+			os.Stderr = c05Null
+			defer func() { os.Stderr = saved }()
+		}
+		x = gtest.NewNode(xt, gtest.UseGenesis(c05Genesis(n)), gtest.UseWallet(gen.WalletFromIndex(200)))
+	}()
+	if x != nil {
+		defer func() {
+			defer func() { _ = recover() }()
+			x.Close()
+		}()
+	}
+	if problem != "" || len(xt.errs) > 0 {
+		ev.Inconclusive("C05 fast sync: cannot assemble the syncing node: %s %v", problem, xt.errs)
+	}
+	if err := x.CS.Start(); err != nil {
+		ev.Inconclusive("C05 fast sync: engine does not start: %v", err)
+	}
+	consensus.VerifSimFreezeTimer(x.CS)
+	eng, ok := x.CS.(interface {
+		ReceiveBlockResult(br fastsync.BlockResult)
+	})
+	if !ok {
+		ev.Inconclusive("C05 fast sync: the engine has no ReceiveBlockResult")
+	}
+	blk, err := x.BM.NewBlockDataFromReader(bytes.NewReader(bb.Bytes()))
+	if err != nil {
+		ev.Inconclusive("C05 fast sync: block 1 does not decode on the syncing node: %v", err)
+	}
+
+	realApp := consensus.VerifSimPSIDAppData(1, 0)
+	fix := func(tg *c05Target) {
+		tg.height, tg.realID, tg.realPS = 1, blk1.ID(), realPS
+		tg.round = int32(rapid.SampledFrom([]int{0, 0, 0, 1, 2}).Draw(rt, "listRound"))
+		if rapid.IntRange(0, 7).Draw(rt, "otherBlock") != 0 {
+			tg.block = 0
+		} else {
+			tg.block = byte(rapid.IntRange(1, 3).Draw(rt, "blockSel"))
+		}
+		if rapid.IntRange(0, 7).Draw(rt, "otherPS") != 0 {
+			tg.psCount = 0
+		}
+		if rapid.IntRange(0, 7).Draw(rt, "otherApp") != 0 {
+			tg.appData = realApp
+		}
+	}
+	c := c05DrawWith(rt, n, fix)
+	realTarget := c.tg.block == 0 && c.tg.psCount == 0
+
+	// what X hears before the block result
+	mode := rapid.SampledFrom([]string{"none", "none", "nilQuorum", "nilQuorum", "nilSome", "otherBlockQuorum", "otherBlockQuorum",
+		"targetSome", "targetSome", "targetToThreshold", "targetOtherRound", "targetPrevotes", "mixed"}).Draw(rt, "heard")
+	type heard struct {
+		signer int
+		what   string
+		round  int32
+	}
+	var hs []heard
+	perm := c05Perm(rt, n, "heardFrom")
+	listSigners := map[int]bool{}
+	for _, it := range c.items {
+		if it.signer >= 0 {
+			listSigners[it.signer] = true
+		}
+	}
+	var outside []int // validators without an item in the list, in drawn order
+	for _, v := range perm {
+		if !listSigners[v] {
+			outside = append(outside, v)
+		}
+	}
+	take := func(from []int, k int) []int {
+		if k > len(from) {
+			k = len(from)
+		}
+		if k < 0 {
+			k = 0
+		}
+		return from[:k]
+	}
+	switch mode {
+	case "nilQuorum":
+		for _, v := range take(perm, need+rapid.IntRange(0, n-need).Draw(rt, "extra")) {
+			hs = append(hs, heard{v, "nil", c.tg.round})
+		}
+	case "nilSome":
+		for _, v := range take(perm, rapid.IntRange(1, n).Draw(rt, "k")) {
+			hs = append(hs, heard{v, "nil", c.tg.round})
+		}
+	case "otherBlockQuorum":
+		for _, v := range take(perm, need+rapid.IntRange(0, n-need).Draw(rt, "extra")) {
+			hs = append(hs, heard{v, "other", c.tg.round})
+		}
+	case "targetSome":
+		for _, v := range take(perm, rapid.IntRange(1, n).Draw(rt, "k")) {
+			hs = append(hs, heard{v, "target", c.tg.round})
+		}
+	case "targetToThreshold":
+		// validators outside the list bring the union to the threshold, one below it, or one above
+		k := need - len(listSigners) + rapid.IntRange(-1, 1).Draw(rt, "delta")
+		for _, v := range take(outside, k) {
+			hs = append(hs, heard{v, "target", c.tg.round})
+		}
+	case "targetOtherRound":
+		for _, v := range take(perm, rapid.IntRange(1, n).Draw(rt, "k")) {
+			hs = append(hs, heard{v, "target", c.tg.round + 1})
+		}
+	case "targetPrevotes":
+		for _, v := range take(perm, rapid.IntRange(1, n).Draw(rt, "k")) {
+			hs = append(hs, heard{v, "targetPrevote", c.tg.round})
+		}
+	case "mixed":
+		for _, v := range take(perm, rapid.IntRange(1, n).Draw(rt, "k")) {
+			hs = append(hs, heard{v, rapid.SampledFrom([]string{"nil", "other", "target", "targetPrevote"}).Draw(rt, "what"),
+				c.tg.round + int32(rapid.SampledFrom([]int{0, 0, 0, 1}).Draw(rt, "dr"))})
+		}
+	}
+	// The engine identifies a block by its part set id (a Merkle root over the block's bytes, so the id follows
+	// from it); a correct validator never signs a pair (block id, part set id) that belongs to no block. Such
+	// pairs may come from Byzantine validators only, so at most f = (n-1)/3 signers utter them.
+	if (c.tg.block == 0) != (c.tg.psCount == 0) {
+		f, k := (n-1)/3, 0
+		var kept []heard
+		for _, h := range hs {
+			if h.what == "target" || h.what == "targetPrevote" {
+				if k >= f {
+					continue
+				}
+				k++
+			}
+			kept = append(kept, h)
+		}
+		hs = kept
+	}
+	other := c.tg
+	other.block = 77
+	other.psCount, other.psHash = 1, 99
+	support := map[int]bool{}
+	for v := range listSigners {
+		support[v] = true
+	}
+	var hdesc []string
+	for _, h := range hs {
+		w := gen.WalletFromIndex(h.signer)
+		var vm *consensus.VoteMessage
+		ts := int64(4000 + h.signer)
+		switch h.what {
+		case "nil":
+			vm = consensus.VerifSimNewVote(w, consensus.VoteTypePrecommit, 1, h.round, []byte{0x01}, nil, 0, ts)
+		case "other":
+			vm = consensus.VerifSimNewVote(w, consensus.VoteTypePrecommit, 1, h.round, other.bid(), other.psid().ID(), other.appData, ts)
+		case "target":
+			vm = consensus.VerifSimNewVote(w, consensus.VoteTypePrecommit, 1, h.round, c.tg.bid(), c.tg.psid().ID(), c.tg.appData, ts)
+			if h.round == c.tg.round {
+				support[h.signer] = true
+			}
+		case "targetPrevote":
+			vm = consensus.VerifSimNewVote(w, consensus.VoteTypePrevote, 1, h.round, c.tg.bid(), c.tg.psid().ID(), c.tg.appData, ts)
+		}
+		pi, bs := consensus.VerifSimMarshal(vm)
+		func() {
+			defer func() {
+				if r := recover(); r != nil {
+					rt.Fatalf("C05 violated: the engine panicked (%v) on a %s vote of validator %d", r, h.what, h.signer)
+				}
+			}()
+			_, _ = x.CS.(module.Reactor).OnReceive(pi, bs, network.NewPeerIDFromAddress(w.Address()))
+		}()
+		hdesc = append(hdesc, fmt.Sprintf("v%d:%s@r%d", h.signer, h.what, h.round))
+	}
+	st0 := consensus.VerifSimGetState(x.CS)
+	if st0.Height != 1 {
+		ev.Inconclusive("C05 fast sync: the syncing node left height 1 (%+v) on votes alone", st0)
+	}
+
+	_, nbad, _ := c.ref()
+	desc := fmt.Sprintf("fastSync heard=%s[%s] block1=%x realPS=%v list{%v}", mode, strings.Join(hdesc, " "), c05Short(blk1.ID()), realPS, c)
+	enough := 3*len(support) > 2*n
+	labels := []string{"fastSync", "fastSync:heard:" + mode, fmt.Sprintf("fastSync:bad=%d", nbad)}
+	if !realTarget {
+		labels = append(labels, "fastSync:listTargetsOtherThing")
+	}
+	g := len(support)
+	nontrivial := (nbad == 0 && g >= need-1 && g <= need+1) || (nbad == 1 && g >= need) ||
+		((mode == "nilQuorum" || mode == "otherBlockQuorum") && len(listSigners) < need)
+	rec.Case(desc, nontrivial, labels...)
+	br := &c05BlockResult{blk: blk, votes: c.wire()}
+	func() {
+		defer func() {
+			if r := recover(); r != nil {
+				rt.Fatalf("C05 violated: ReceiveBlockResult panicked (%v) | %s", r, desc)
+			}
+		}()
+		eng.ReceiveBlockResult(br)
+	}()
+	switch {
+	case br.consumed && !realTarget:
+		rt.Fatalf("C05 violated: fast sync accepted block 1 as committed on a vote list over something else (block selector %d, part set selector %d) | %s", c.tg.block, c.tg.psCount, desc)
+	case br.consumed && !enough:
+		rt.Fatalf("C05 violated: fast sync accepted block 1 as committed although only %d of %d validators (%v) ever precommitted exactly that block, round and part set (list and earlier votes together; more than two thirds are needed) | %s", g, n, support, desc)
+	case br.consumed:
+		rec.Label("fastSync:accepted")
+		if len(listSigners) < need {
+			rec.Label("fastSync:accepted-with-earlier-votes")
+		}
+		// the block really is committed by X
+		deadline := time.Now().Add(5 * time.Second)
+		for time.Now().Before(deadline) {
+			if lb, err := x.BM.GetLastBlock(); err == nil && lb.Height() >= 1 {
+				break
+			}
+			time.Sleep(2 * time.Millisecond)
+		}
+		if lb, err := x.BM.GetLastBlock(); err == nil && lb.Height() >= 1 {
+			if !bytes.Equal(lb.ID(), blk1.ID()) {
+				rt.Fatalf("C05 violated: after the accepted fast-sync result the node finalized %x at height 1, not the certified block %x | %s", lb.ID(), blk1.ID(), desc)
+			}
+			rec.Label("fastSync:finalized")
+		} else {
+			rec.Label("fastSync:accepted-not-finalized-in-5s")
+		}
+	case br.rejected:
+		rec.Label("fastSync:rejected")
+		if enough && realTarget && nbad == 0 {
+			equiv := false
+			for _, h := range hs {
+				if h.round == c.tg.round && h.what != "target" && h.what != "targetPrevote" {
+					equiv = true
+				}
+			}
+			if equiv {
+				rec.Label("fastSync:valid-list-rejected-after-conflicting-earlier-precommits")
+			} else {
+				rec.Label("fastSync:valid-list-rejected")
+			}
+		}
+	default:
+		rec.Label("fastSync:neither-consumed-nor-rejected")
 	}
 }
